@@ -139,6 +139,10 @@ func epsStr(es []*service.Endpoint) string {
 		if e.Type == service.Endpoint_BACKUP {
 			t = "B"
 		}
+		if e.Address == nil {
+			s = append(s, "<no address>/"+t)
+			continue
+		}
 		s = append(s, fmt.Sprintf("%s:%d/%s", e.Address.Ip, e.Address.Port, t))
 	}
 	return "[" + strings.Join(s, " ") + "]"
@@ -288,6 +292,12 @@ func c08History(r *ev.Run, seed int64, hi int) bool {
 			if na == 0 && nr > 0 {
 				features["removal-only-update"] = true
 			}
+			if rnd.Intn(25) == 0 {
+				// an endpoint without an address (a malformed entry of the discovery stream): it is no host, and it must not
+				// take the event loop down
+				added = append(added, &service.Endpoint{})
+				features["endpoint-without-address"] = true
+			}
 			cfg.VerifSvcEndpointUpdate(name, added, removed)
 			trace = append(trace, fmt.Sprintf("eps %s +%s -%s", short, epsStr(added), epsStr(removed)))
 		}
@@ -382,6 +392,9 @@ func c08History(r *ev.Run, seed int64, hi int) bool {
 			t := "Main"
 			if e.Type == service.Endpoint_BACKUP {
 				t = "Backup"
+			}
+			if e.Address == nil {
+				continue // no address, no host
 			}
 			want[fmt.Sprintf("%s:%d", e.Address.Ip, e.Address.Port)] = t
 		}
